@@ -1449,7 +1449,8 @@ class Session:
         vdc = load('hail.vds.combiner.variant_dataset_combiner')
         # engine-side seams inside the loaded real module
         vdc.calculate_new_intervals = fake_calculate_new_intervals
-        vdc.uuid = types.SimpleNamespace(uuid4=self.uuid4)
+        vdc.uuid = types.SimpleNamespace(**{k: getattr(_uuid_mod, k) for k in dir(_uuid_mod) if not k.startswith('__')})
+        vdc.uuid.uuid4 = self.uuid4  # only uuid4 is seeded; UUID, uuid5, NAMESPACE_* pass through
         vds.new_combiner = vdc.new_combiner
         vds.load_combiner = vdc.load_combiner
         self.combine = comb
@@ -1463,7 +1464,8 @@ class Session:
         vdc = self._load_real('hail.vds.combiner.variant_dataset_combiner',
                               *[(r, p) for n, r, p in _REAL if n == 'hail.vds.combiner.variant_dataset_combiner'][0])
         vdc.calculate_new_intervals = fake_calculate_new_intervals
-        vdc.uuid = types.SimpleNamespace(uuid4=self.uuid4)
+        vdc.uuid = types.SimpleNamespace(**{k: getattr(_uuid_mod, k) for k in dir(_uuid_mod) if not k.startswith('__')})
+        vdc.uuid.uuid4 = self.uuid4  # only uuid4 is seeded; UUID, uuid5, NAMESPACE_* pass through
         self.combine = self.mods['hail.vds.combiner.combine']
         self.vdc = vdc
         self.mods['hail.vds'].new_combiner = vdc.new_combiner
